@@ -41,14 +41,25 @@ static void g_check(gbuf_t *g) {
 		}
 }
 
+/* the derived constants of the field context (reduction exponents, trace positions, sqrt(z), Itoh-Tsujii chain) */
+void fb_info_print(void) {
+	int a, b, c, ta, tb, tc;
+	fb_poly_get_rdc(&a, &b, &c);
+	fb_poly_get_trc(&ta, &tb, &tc);
+	fprintf(OUT, " pa=%d pb=%d pc=%d ta=%d tb=%d tc=%d srz=", a, b, c, ta, tb, tc);
+	hex_min(fb_poly_get_srz(), RLC_FB_DIGS);
+	int len = 0; const int *ch = fb_poly_get_chain(&len);
+	fprintf(OUT, " chain=%d", len);
+	for (int i = 0; ch && i < len; i++) fprintf(OUT, ":%d", ch[i]);
+	fprintf(OUT, " karat=%d", (int)FB_KARAT);
+}
+
 /* fb_param <id> : select the irreducible polynomial; print what the specification needs from the running library */
 static void op_fb_param(int argc, char **argv) {
 	if (argc < 2) { fprintf(OUT, "bad-args\n"); return; }
-	int id = parse_int(argv[1]), caught = 0, a, b, c, ta, tb, tc;
+	int id = parse_int(argv[1]), caught = 0;
 	RLC_TRY { fb_param_set(id); } RLC_CATCH_ANY { caught = 1; }
 	if (take_err() || caught) { fprintf(OUT, "err\n"); return; }
-	fb_poly_get_rdc(&a, &b, &c);
-	fb_poly_get_trc(&ta, &tb, &tc);
 	fprintf(OUT, "fb_param id=%d m=%d digs=%d f=", id, (int)RLC_FB_BITS, (int)RLC_FB_DIGS);
 	/* the polynomial including z^m: for m a multiple of the digit size the top coefficient is implicit */
 	{
@@ -57,12 +68,8 @@ static void op_fb_param(int argc, char **argv) {
 		f[RLC_FB_DIGS] = (RLC_FB_BITS % RLC_DIG == 0) ? 1 : 0;
 		hex_min(f, RLC_FB_DIGS + 1);
 	}
-	fprintf(OUT, " pa=%d pb=%d pc=%d ta=%d tb=%d tc=%d srz=", a, b, c, ta, tb, tc);
-	hex_min(fb_poly_get_srz(), RLC_FB_DIGS);
-	int len = 0; const int *ch = fb_poly_get_chain(&len);
-	fprintf(OUT, " chain=%d", len);
-	for (int i = 0; ch && i < len; i++) fprintf(OUT, ":%d", ch[i]);
-	fprintf(OUT, " karat=%d\n", (int)FB_KARAT);
+	fb_info_print();
+	fputc('\n', OUT);
 }
 
 /* fbb <op> <alias> <a> <b> */
